@@ -119,6 +119,8 @@ def ctor_call_kwargs(fi: FuncInfo, clsname: str) -> Optional[Set[str]]:
 
 def check(ctx):
     repo = ctx.repo
+    ctx.rule("R14.14", "the records of a solution exported after its raw output is gone (one frame that carries all of them) are read back: the record "
+                       "reader is followed on that file (pvs/shapes.py)", 1)
     ctx.rule("R14.10", "serialisers and copy methods do not modify the object they serialise", 8)
     ctx.rule("R14.1", "writer and reader of each serialisable class agree on the key set; conditionally written keys are "
                       "read conditionally; the reader feeds every constructor parameter", 12)
@@ -151,6 +153,7 @@ def check(ctx):
     getstate_slots(ctx)
     callables(ctx)
     tdgl_data(ctx)
+    exported_records(ctx)
     dynamics_detection(ctx)
     from ..effects import serialisers_pure
     serialisers_pure(ctx, "R14.10", "saving (or pickling) an object changes it: the object in memory no longer equals what was written, "
@@ -749,3 +752,32 @@ def roundtrips(ctx):
                construct=f"{cls}(...) in {rname}", loc=loc(r, r.node),
                message=f"{cls}.{rname} does not pass {missing}",
                consequence="the reloaded object silently takes the default for that field")
+
+
+def exported_records(ctx):
+    """R14.14.  Solution.to_hdf5(new_path) of a solution whose raw output file is gone (output_file=None, delete_hdf5()) writes a
+    single frame `data/<step>` whose `running_state` holds the records of the whole run.  DynamicsData.from_hdf5 is followed on a
+    model of that file: it must return all the records."""
+    from ..shapes import MANY, Arr, exported_file, read_records
+    repo = ctx.repo
+    f = repo.func("tdgl.solution.data", "DynamicsData.from_hdf5")
+    fw = repo.func("tdgl.solution.solution", "Solution._save_to_hdf5_file")
+    # the writer side of the scenario: one frame named by the step, its running_state written by DynamicsData.to_hdf5
+    wsrc = norm(fw.node)
+    if "running_state" not in wsrc or "self.dynamics.to_hdf5" not in wsrc:
+        raise AnalysisError("Solution._save_to_hdf5_file no longer writes the dynamics into <step>/running_state")
+    n = 5
+    kind, val = read_records(repo, exported_file(n, 7), 1, data_range=(7, 7))
+    got = {}
+    if kind == "return" and getattr(val, "parts", None) and val.parts[0] == "call":
+        names = ["dt", "mu", "theta", "screening_iterations"]
+        passed = dict(zip(names, val.parts[2]))
+        passed.update(val.parts[3])
+        got = {k: (v.shape if isinstance(v, Arr) else v) for k, v in passed.items()}
+    want = {"dt": (n,), "mu": (MANY, n), "theta": (MANY, n), "screening_iterations": (n,)}
+    ctx.ob("R14.14", "an exported solution (one frame carrying all per-step records) loads with all its records", kind == "return" and got == want,
+           detail={"loaded": {k: str(v) for k, v in got.items()}, "outcome": kind if kind == "return" else f"raises {val}"}, where=f.fq,
+           construct="records of an exported in-memory solution", loc=loc(f, f.node),
+           message=f"a file with the single frame data/7 whose running_state holds {n} steps loads as {got if kind == 'return' else 'raises ' + str(val)}",
+           consequence="Solution.to_hdf5(path) after delete_hdf5() (or of a run with output_file=None) followed by Solution.from_hdf5(path) silently "
+                       "loses the dynamics: no time steps, no probe voltages, Solution.times has one entry")
